@@ -621,3 +621,106 @@ def ob_cancel_resume_equal_events(n: int, same: bool, c: int) -> bool:
 
 
 NSAME = B(3, 4)
+
+
+# ------------------------------------------------------------------ the application LOOKS at the run while it works, then cancels and resumes
+class _FanDur(Workflow):
+    """fans out n events to a step with 4 workers; in the first life invocation i takes dur[i] seconds (>= 1000: it hangs until the
+    cancellation); the resumed life lets everything finish at once; the run completes when all n results are collected"""
+
+    @step
+    async def start(self, ctx: Context, ev: StartEvent) -> Sample | None:
+        for i in range(self.n):
+            ctx.send_event(Sample(prompt="p%d" % i))
+        return None
+
+    @step(num_workers=4)
+    async def work(self, ctx: Context, ev: Sample) -> SDone:
+        import asyncio
+
+        i = int(ev.prompt[1:])
+        if self.life[0] == 1:
+            await asyncio.sleep(self.dur[i])
+        return SDone(v=i)
+
+    @step
+    async def join(self, ctx: Context, ev: SDone) -> StopEvent | None:
+        got = ctx.collect_events(ev, [SDone] * self.n)
+        if got is None:
+            return None
+        return StopEvent(result=sorted(e.v for e in got))      # WHICH invocations produced the results, not just how many
+
+
+@obligation(quick=240, thorough=600, partitions_quick=[f"pk == {p} and how == {h}" for p in (0, 1, 2) for h in (0, 1)],
+            partitions_thorough=[f"pk == {p} and how == {h} and d0 == {d}" for p in (0, 1, 2) for h in (0, 1, 2) for d in (0, 1, 2, 3)],
+            what="the application looks at a WORKING run (ctx.running_steps() / ctx.to_dict() / both, at instant pk, while some of 3 invocations of a "
+                 "4-worker step have finished and others are busy), later cancels it: the context still serializes (to_dict -> JSON -> "
+                 "Context.from_dict) and the resumed run completes with the results of exactly the 3 invocations (each once) — looking at a run does not change what a later "
+                 "snapshot contains",
+            bounds={"invocations": 3, "first-life durations d0, d1": "0..2 or hanging (3); the third hangs", "look at": "0..2", "cancel at": "look + 1..2"})
+def ob_look_then_cancel_resume(pk: int, how: int, dc: int, d0: int, d1: int) -> bool:
+    """
+    pre: 0 <= pk <= 2 and 0 <= how <= HOW31 and 1 <= dc <= 2 and 0 <= d0 <= 3 and 0 <= d1 <= 3
+    post: _
+    """
+    import asyncio
+    import json
+
+    import workflows.plugins.basic as basic_mod
+    import workflows.runtime.types.step_function as sf_mod
+    from vlib.h_idle import FakeTime
+    from vlib.miniloop import MiniLoop
+
+    pk, how, dc, d0, d1 = conc(pk, 0, 2), conc(how, 0, 2), conc(dc, 1, 2), conc(d0, 0, 3), conc(d1, 0, 3)
+    life = [1]
+    loop = MiniLoop()
+    out: dict = {}
+    n = 3
+
+    def mk():
+        w = _FanDur(timeout=None, runtime=basic_mod.BasicRuntime())
+        w.n, w.life, w.dur = n, life, [1000 if d == 3 else d for d in (d0, d1)] + [1000]
+        return w
+
+    async def main():
+        h1 = mk().run(run_id="r1")
+        await asyncio.sleep(pk)
+        try:
+            if how in (0, 2):
+                await h1.ctx.running_steps()
+            if how in (1, 2):
+                h1.ctx.to_dict()
+        except Exception as e:  # noqa: BLE001
+            out["look"] = repr(e)
+        await asyncio.sleep(dc)
+        await h1.cancel_run()
+        try:
+            await h1
+            out["first"] = "finished"
+        except WorkflowCancelledByUser:
+            out["first"] = "cancelled"
+        try:
+            snap = json.loads(json.dumps(h1.ctx.to_dict()))
+        except Exception as e:  # noqa: BLE001
+            out["snapshot"] = repr(e)
+            return
+        life[0] = 2
+        w2 = mk()
+        h2 = w2.run(ctx=Context.from_dict(w2, snap), run_id="r2")
+        try:
+            out["second"] = ("result", await asyncio.wait_for(h2, timeout=30))
+        except asyncio.TimeoutError:
+            out["second"] = ("HUNG", None)
+        except Exception as e:  # noqa: BLE001
+            out["second"] = ("error", repr(e))
+
+    saved = (basic_mod.time, sf_mod.time)
+    basic_mod.time = sf_mod.time = FakeTime(loop)
+    try:
+        loop.run_until_complete(main())
+    finally:
+        basic_mod.time, sf_mod.time = saved
+    return "look" not in out and "snapshot" not in out and out.get("first") == "cancelled" and out.get("second") == ("result", list(range(n)))
+
+
+HOW31 = B(1, 2)
